@@ -11,7 +11,7 @@ Real code under contract:
 import re
 
 import common_rq
-from extract import ExtractionError
+from extract import ExtractionError, code_tokens, match_brace
 
 ANCHOR = "prqlc/prqlc/src/sql/pq/anchor.rs"
 PQ_AST = "prqlc/prqlc/src/sql/pq/ast.rs"
@@ -22,8 +22,8 @@ RLIMIT = 80
 NAMES = ["From", "Compute", "Select", "Filter", "Aggregate", "Sort", "Take", "Join", "Append", "Loop",
          "Distinct", "DistinctOn", "Except", "Intersect", "Union"]
 
-LABELS = ["SO1.%s.%s" % (t, f) for t in NAMES for f in NAMES] + ["AS1", "AS2", "SO1c", "SO2a", "SO2b", "IC1", "IC2", "IC3", "CM1", "CM2", "RO1", "RO2", "RO3", "CX1"]
-FUNCTIONS = ["as_str", "is_split_required", "infer_complexity", "can_materialize", "reorder_should_swap"]
+LABELS = ["SO1.%s.%s" % (t, f) for t in NAMES for f in NAMES] + ["AS1", "AS2", "SO1c", "SO2a", "SO2b", "IC1", "IC2", "IC3", "CM1", "CM2", "RO1", "RO2", "RO3", "CX1", "GR1", "GR2"]
+FUNCTIONS = ["as_str", "is_split_required", "infer_complexity", "can_materialize", "reorder_should_swap", "compute_operand_cap"]
 
 ASSUMED = [
     common_rq.OPAQUE_ASSUMPTION,
@@ -304,20 +304,67 @@ pub fn contains_any<const C: usize>(set: &HashSet<String>, elements: [&'static s
     ro.rewrites.append({"rule": "slice", "what": "wrapped as fn reorder_should_swap(prev, compute) -> should_swap; the `use` lines of "
                         "reorder() are repeated"})
 
+    # ---- get_requirements: how complex the columns that a compute refers to may be, for them to stay in the same SELECT
+    gr = X.fn(ANCHOR, "get_requirements")
+    mg = re.search(r"match infer_complexity\(compute\) \{", gr.text)
+    if not mg:
+        raise ExtractionError("get_requirements: `match infer_complexity(compute) { .. }` (cap on the operands of a compute) not found")
+    gtoks = code_tokens(gr.text)
+    kg = next(i for i, t in enumerate(gtoks) if t[1] == mg.end() - 1)
+    ge = gtoks[match_brace(gr.text, gtoks, kg)][2]
+    gr.name = "compute_operand_cap"
+    gr.text = ("pub fn compute_operand_cap(c: Complexity) -> (r: Complexity)\n"
+               "    ensures\n"
+               "        // C04 / C01: the argument of an aggregation or of a window function may not itself be a window function or an aggregation of the same SELECT\n"
+               "        // (SQL: `misuse of window function`, nested aggregates): such a column has to come from a sub-query\n"
+               "        (c == Complexity::Aggregation || c == Complexity::Windowed) ==> rank(r) < rank(Complexity::Windowed), // @GR1\n"
+               "        // a plain expression can refer to anything\n"
+               "        c == Complexity::Plain ==> r == Complexity::Aggregation, // @GR2\n"
+               "{\n    match c " + gr.text[mg.end() - 1:ge] + "\n}\n")
+    gr.rewrites.append({"rule": "slice", "what": "`match infer_complexity(compute) { .. }` (argument of allow_up_to in the Compute arm of get_requirements) wrapped as fn compute_operand_cap(c)"})
+
     imports = "use rq::{CId, Compute, Expr, RelationColumn, TableRef, Transform};  // as in anchor.rs / preprocess.rs\n"
     body = "\n".join([model, imports, sqlt.text, ORACLE, names_lemma, as_str_impl, cx.text, cmp_specs, cx_impl.text,
                       "#[verifier::external_body]\npub fn complexity_min(a: Complexity, b: Complexity) -> (r: Complexity) ensures r == (if rank(a) <= rank(b) { a } else { b }), { unimplemented!() }\n",
-                      req.text, ice, ic.text, min_allowed, cm.text, ca_text, isr.text, ro.text])
+                      req.text, ice, ic.text, min_allowed, cm.text, ca_text, isr.text, ro.text, gr.text])
     return PRELUDE + body + "\n} // verus!\nfn main() {}\n"
 
 
 # ----------------------------------------------------------------------------- replay on the real compiler
+WINDOW_SETUP = "create table t(g text, b integer, x integer); insert into t values ('a',1,10),('a',2,30),('a',3,20),('b',1,5),('c',1,8),('c',2,8);"
+# (program, expected rows): a window function / aggregation used as the argument of an aggregation or of another window function
+WINDOW_CASES = [
+    ("from t\ngroup g (sort b | window rolling:2 (derive {m = average x}))\ngroup g (aggregate {mm = max m})\nsort g\n", [("a", 25.0), ("b", 5.0), ("c", 8.0)]),
+    ("from t\ngroup g (aggregate {s = sum x})\nderive {r = rank s}\nsort g\nselect {g, s}\n", [("a", 60), ("b", 5), ("c", 16)]),
+]
+
+
+def _window_try(src, exp):
+    import replaylib
+    ok, sql = replaylib.compile_prql(src, "sql.sqlite")
+    if not ok:
+        return {"input": src, "expected": [list(r) for r in exp], "observed": sql[:300], "failing": sql.startswith("PANIC"), "replay_kind": "rows"}
+    ok2, rows = replaylib.sqlite_rows(WINDOW_SETUP, sql)
+    rows = [tuple(r) for r in rows] if ok2 else rows
+    return {"input": src, "expected": [list(r) for r in exp], "observed": [list(r) for r in rows] if ok2 else "sqlite error: %s" % rows, "failing": (not ok2) or rows != exp,
+            "replay_kind": "rows", "sql": sql}
+
+
 def replay(failure):
-    """Rows about what may share a pipeline with a set operation: programs with DISTINCT / filter / sort / take after a set operation must compile without a panic."""
+    """Rows about what may share a pipeline with a set operation: programs with DISTINCT / filter / sort / take after a set operation must compile without a panic.
+    Rows about complexity (GR / CM / IC): windowed values used by aggregations must come from a sub-query (executed on SQLite)."""
     import setops_reach
+    lab = failure.get("obligation", "").split(".", 1)[-1]
+    if lab.startswith(("GR", "CM", "IC")):
+        for src, exp in WINDOW_CASES:
+            r = _window_try(src, exp)
+            if r["failing"]:
+                return r
     return setops_reach.replay(failure)
 
 
 def rerun(doc):
     import setops_reach
+    if doc.get("replay_kind") == "rows":
+        return _window_try(doc["input"], [tuple(r) for r in doc["expected"]])
     return setops_reach.rerun(doc)
